@@ -68,6 +68,7 @@ let show_f = function None -> "REJ" | Some v -> "OK " ^ hex_of_z v
 let show_b = function None -> "PANIC" | Some b -> hex_of_bytes b
 
 let decode codec fmt bs =
+  let fmt = if fmt = "b" then "c" else fmt in   (* FromBytes = FromCompressed *)
   match codec, fmt with
   | ("k256" | "p256"), "c" -> show_w (sec1_dec_c (wcodec_of codec) bs)
   | ("k256" | "p256"), "u" -> show_w (sec1_dec_u (wcodec_of codec) bs)
@@ -114,6 +115,7 @@ let () =
          | "x25519" -> show_x (x_from_affine ed25519_codec curve25519_c x y)
          | "x25519p" -> show_x (e_sub ed25519_codec (x_from_affine ed25519_codec curve25519_c x y))
          | _ -> failwith ("bad codec " ^ codec))
+      | ["AX"; "blsg1"; x; odd] -> show_w (blsg1_from_affine_x blsg1_codec (z_of_hex x) (odd = "1"))
       | ["AX"; codec; x; odd] -> show_w (w_from_affine_x (wcodec_of codec) (z_of_hex x) (odd = "1"))
       | ["F"; fld; h] ->
         if fld = "ed.fp" then show_f (fld25519_from_bytes ed25519_params.ep_p (bytes_of_hex h))
